@@ -28,6 +28,12 @@ pub enum S {
     Unwatch { k: usize },
     UnwatchAll,
     Disconnect,
+    /// the session selects another database (e) and comes back later: its subscriptions are made in d
+    UseOther,
+    UseBack,
+    /// the connection dies without the server running its clean-up (the receiver is dropped, no unwatch-all): the other
+    /// subscribers must not notice
+    Die,
 }
 
 #[derive(Clone, Debug, Serialize, Deserialize)]
@@ -54,13 +60,13 @@ fn w_strategy() -> impl Strategy<Value = W> {
 
 fn s_strategy() -> impl Strategy<Value = S> {
     let k = 0..2usize;
-    prop_oneof![5 => k.clone().prop_map(|k| S::Watch { k }), 2 => k.prop_map(|k| S::Unwatch { k }), 1 => Just(S::UnwatchAll), 1 => Just(S::Disconnect)]
+    prop_oneof![6 => k.clone().prop_map(|k| S::Watch { k }), 2 => k.prop_map(|k| S::Unwatch { k }), 1 => Just(S::UnwatchAll), 1 => Just(S::Disconnect), 1 => Just(S::UseOther), 1 => Just(S::UseBack), 1 => Just(S::Die)]
 }
 
 pub fn case_strategy() -> impl Strategy<Value = Case> {
     (
         prop::collection::vec(prop::collection::vec(w_strategy(), 1..4), 1..3),
-        prop::collection::vec(prop::collection::vec(s_strategy(), 1..4), 1..3),
+        prop::collection::vec(prop::collection::vec(s_strategy(), 1..5), 1..3),
         prop::collection::vec(prop_oneof![3 => Just(0u16), 2 => any::<u16>()], 0..60),
     )
         .prop_map(|(writers, subs, schedule)| Case { writers, subs, schedule })
@@ -126,6 +132,7 @@ pub fn run_case(ctx: &Ctx, case: &Case) -> Result<Outcome, String> {
     admin.send(&node, "set a init2");
     admin.send(&node, "set n 99");
     admin.send(&node, "set n 100");
+    admin.send(&node, "create-db e etok");
     node.pump();
     let mut tasks: Vec<Box<dyn FnOnce(&sched::TaskCtx) -> TaskOut + Send>> = vec![];
     for (ci, prog) in case.writers.iter().enumerate() {
@@ -160,24 +167,28 @@ pub fn run_case(ctx: &Ctx, case: &Case) -> Result<Outcome, String> {
             let mut events = vec![];
             let mut watching = [false, false];
             let mut gone = false;
+            let mut in_d = true;
             for op in prog.iter() {
                 if gone {
                     break;
                 }
-                // a client never registers twice for a key it already watches (unspecified)
-                if let S::Watch { k } = op {
-                    if watching[*k] {
-                        continue;
-                    }
+                // (watch and unwatch name keys of the selected database: while e is selected they are not sent)
+                if let (false, S::Watch { .. } | S::Unwatch { .. }) = (in_d, op) {
+                    continue;
+                }
+                if let (true, S::UseBack) | (false, S::UseOther) = (in_d, op) {
+                    continue;
                 }
                 t.pause("cmd");
                 let start = t.now();
                 let mut seen: Option<String> = None;
                 match op {
                     S::Watch { k } => {
+                        // (a second watch of a key the session already watches changes nothing: still ONE notification per mutation)
                         nundb::process_request::process_request(&format!("watch {}", KEYS[*k]), &dbs, &mut s.client);
-                        watching[*k] = true;
-                        seen = dbs.map.read().unwrap().get("d").and_then(|d| d.map.read().unwrap().get(KEYS[*k]).map(|v| v.value.clone()));
+                        if !watching[*k] {
+                            seen = dbs.map.read().unwrap().get("d").and_then(|d| d.map.read().unwrap().get(KEYS[*k]).map(|v| v.value.clone()));
+                        }
                     }
                     S::Unwatch { k } => {
                         nundb::process_request::process_request(&format!("unwatch {}", KEYS[*k]), &dbs, &mut s.client);
@@ -193,9 +204,27 @@ pub fn run_case(ctx: &Ctx, case: &Case) -> Result<Outcome, String> {
                         watching = [false, false];
                         gone = true;
                     }
+                    S::UseOther => {
+                        nundb::process_request::process_request("use-db e etok", &dbs, &mut s.client);
+                        in_d = false;
+                    }
+                    S::UseBack => {
+                        nundb::process_request::process_request("use-db d tok", &dbs, &mut s.client);
+                        in_d = true;
+                    }
+                    S::Die => {
+                        s.kill_receiver();
+                        gone = true;
+                    }
                 }
                 let end = t.now();
-                events.push(SubEvent { op: op.clone(), start, end, effective: true, seen_at_ack: seen });
+                let rewatch = matches!(op, S::Watch { k } if watching[*k]);
+                if let S::Watch { k } = op {
+                    watching[*k] = true;
+                }
+                if !rewatch {
+                    events.push(SubEvent { op: op.clone(), start, end, effective: true, seen_at_ack: seen });
+                }
             }
             TaskOut::Sub(SubResult { events, lines: vec![] }, s)
         }));
@@ -220,6 +249,10 @@ pub fn run_case(ctx: &Ctx, case: &Case) -> Result<Outcome, String> {
     let mut nontrivial = false;
     if fail.is_none() && subs.len() == nsubs {
         'subs: for (si, sub) in subs.iter().enumerate() {
+            // (a subscriber whose connection died has no receiver to look at; it is there for what it does to the others)
+            if sub.events.iter().any(|e| matches!(e.op, S::Die)) {
+                continue;
+            }
             // watch intervals per key: (ack_time, possible_from, unsub_start, unsub_end)
             for k in 0..2 {
                 let mut intervals: Vec<(u64, u64, u64, u64)> = vec![];
